@@ -16,9 +16,10 @@ Variable A : Type.
 Hypothesis A_eq_dec : forall a b : A, {a = b} + {a <> b}.
 Inductive bf := At (a : A) | Cst (b : bool) | Neg (x : bf) | Bin (op : boolop) (x y : bf) | Pv (n : nat) (w : bool) (x : bf) | Ini (x : bf)
               | Nx (n : nat) (w : bool) (x : bf) | TN2 (u : bool) (l r : bf) | TN1 (u : bool) (r : bf) | TP2 (u : bool) (l r : bf) | TP1 (u : bool) (r : bf).
-Lemma boolop_eq_dec : forall a b : boolop, {a = b} + {a <> b}.  Proof. decide equality. Qed.
+Lemma boolop_eq_dec : forall a b : boolop, {a = b} + {a <> b}.  Proof. decide equality. Defined.
 Lemma bf_eq_dec : forall f g : bf, {f = g} + {f <> g}.
-Proof. decide equality; try apply Bool.bool_dec; try apply Nat.eq_dec; apply boolop_eq_dec. Qed.
+Proof. decide equality; try apply Bool.bool_dec; try apply Nat.eq_dec; apply boolop_eq_dec. Defined.
+Opaque bf_eq_dec boolop_eq_dec.       (* transparent for extraction only *)
 Definition trace := nat -> A -> bool.
 (* ---------------- LTLf semantics at horizon h ---------------- *)
 Fixpoint lsat (h : nat) (T : trace) (p : bf) : nat -> bool :=
@@ -73,15 +74,20 @@ Inductive var := VU (a : A) (k : nat) | VX (n : nat).
 Definition lit := (bool * var)%type.
 Definition nlit (l : lit) : lit := (negb (fst l), snd l).
 Inductive kind := KChoice | KFalse | KExt (val : option bool).          (* KExt None = free external *)
+Inductive event := ENew (n : nat) (kd : kind) (key : bf * nat)          (* an auxiliary atom allocated for an entry: choice atom or external placeholder *)
+                 | EGroup (key : bf * nat) (cs : list (list lit))       (* a clause group emitted for an entry *)
+                 | EFree (n : nat).                                      (* a resolved placeholder is made a free external *)
 Record st := mkst { nxt : nat; kinds : list (nat * kind); cls : list (list lit);
-                    cache : list ((bf * nat) * (lit * bool)); pending : list (nat * bf) }.
+                    cache : list ((bf * nat) * (lit * bool)); pending : list (nat * bf);
+                    log : list event }.                                  (* ghost: what was emitted, newest first *)
 Definition keyb (f : bf) (k : nat) (p : (bf * nat) * (lit * bool)) : bool := if bf_eq_dec (fst (fst p)) f then snd (fst p) =? k else false.
 Definition lookup (s : st) f k : option (lit * bool) := option_map snd (find (keyb f k) (cache s)).
-Definition set_cache s f k l d := mkst (nxt s) (kinds s) (cls s) (((f, k), (l, d)) :: cache s) (pending s).
-Definition fresh s kd : nat * st := (nxt s, mkst (S (nxt s)) ((nxt s, kd) :: kinds s) (cls s) (cache s) (pending s)).
-Definition add_cls s cs := mkst (nxt s) (kinds s) (cs ++ cls s) (cache s) (pending s).
-Definition add_pending s k f := mkst (nxt s) (kinds s) (cls s) (cache s) ((k, f) :: pending s).
-Definition init : st := mkst 1 [(0, KFalse)] [] [] [].                     (* VX 0 is the false literal *)
+Definition set_cache s f k l d := mkst (nxt s) (kinds s) (cls s) (((f, k), (l, d)) :: cache s) (pending s) (log s).
+Definition fresh s kd (key : bf * nat) : nat * st := (nxt s, mkst (S (nxt s)) ((nxt s, kd) :: kinds s) (cls s) (cache s) (pending s) (ENew (nxt s) kd key :: log s)).
+Definition add_cls s (key : bf * nat) cs := mkst (nxt s) (kinds s) (cs ++ cls s) (cache s) (pending s) (match cs with [] => log s | _ => EGroup key cs :: log s end).
+Definition add_pending s k f := mkst (nxt s) (kinds s) (cls s) (cache s) ((k, f) :: pending s) (log s).
+Definition add_free s n := mkst (nxt s) (kinds s) (cls s) (cache s) (pending s) (EFree n :: log s).
+Definition init : st := mkst 1 [(0, KFalse)] [] [] [] [].                     (* VX 0 is the false literal *)
 Definition lfalse : lit := (true, VX 0).
 Definition ltrue : lit := (false, VX 0).
 Definition lconst (b : bool) : lit := if b then ltrue else lfalse.
@@ -112,7 +118,7 @@ Definition combine (f : bf) (k : nat) (ls : list lit) : option comb :=
   end.
 (* after the recursive calls the entry must still be unset: StepData.add_literal asserts this (an Internal outcome = None here) *)
 Definition fin (s : st) (f : bf) (k : nat) (l : lit) (d : bool) (cs : list (list lit)) : option (lit * st) :=
-  match lookup s f k with Some _ => None | None => Some (l, set_cache (add_cls s cs) f k l d) end.
+  match lookup s f k with Some _ => None | None => Some (l, set_cache (add_cls s (f, k) cs) f k l d) end.
 Fixpoint go (tr : bf -> nat -> st -> option (lit * st)) (ds : list (bf * nat)) (s : st) : option (list lit * st) :=
   match ds with
   | [] => Some ([], s)
@@ -127,25 +133,25 @@ Fixpoint translate (fuel h : nat) (f : bf) (k : nat) (s : st) : option (lit * st
       | Nx n w x =>
           if k + n <=? h then
             match translate fu h x (k + n) s with None => None | Some (lx, s1) =>
-              Some (l, set_cache (add_cls s1 (inst (lmap l lfalse lx lfalse) make_equal_cl_gen)) f k l true) end
+              Some (l, set_cache (let s2 := add_cls s1 (f, k) (inst (lmap l lfalse lx lfalse) make_equal_cl_gen) in match l with (_, VX e) => add_free s2 e | _ => s2 end) f k l true) end
           else Some (l, add_pending s k f)
       | _ => Some (l, s)
       end
   | None =>
       if outside h f k then
-        let (e, s1) := fresh s (KExt (Some (match f with Nx _ w _ => w | _ => false end))) in fin (add_pending s1 k f) f k (true, VX e) false []
+        let (e, s1) := fresh s (KExt (Some (match f with Nx _ w _ => w | _ => false end))) (f, k) in fin (add_pending s1 k f) f k (true, VX e) false []
       else
         match go (translate fu h) (deps f k) s with None => None | Some (ls, s1) =>
           match combine f k ls with
           | None => None
           | Some (CAlias l) => fin s1 f k l true []
-          | Some (CDefine cs) => let (z, s2) := fresh s1 KChoice in let l := (true, VX z) in fin s2 f k l true (cs l)
+          | Some (CDefine cs) => let (z, s2) := fresh s1 KChoice (f, k) in let l := (true, VX z) in fin s2 f k l true (cs l)
           end end
   end end.
 (* Theory.translate for one horizon: roots are the (formula, step) pairs of the ground theory atoms; then the old pending list *)
 Fixpoint run_list (fuel h : nat) (todo : list (nat * bf)) (s : st) : option st :=
   match todo with [] => Some s | (k, f) :: r => match translate fuel h f k s with None => None | Some (_, s1) => run_list fuel h r s1 end end.
-Definition clear_pending (s : st) := mkst (nxt s) (kinds s) (cls s) (cache s) [].
+Definition clear_pending (s : st) := mkst (nxt s) (kinds s) (cls s) (cache s) [] (log s).
 Definition theory_translate (fuel h : nat) (roots : list (nat * bf)) (s : st) : option st :=
   run_list fuel h (rev (pending s) ++ roots) (clear_pending s).
 (* ---------------- semantics of a state ---------------- *)
@@ -266,9 +272,9 @@ Proof.
   - inversion E; subst. now apply New.
   - apply (entry_ok_ext h todo s s'); [exact X|]. apply I. now apply Old.
 Qed.
-Lemma cls_set_add s cs f k l d : cls (set_cache (add_cls s cs) f k l d) = cs ++ cls s.
+Lemma cls_set_add s key cs f k l d : cls (set_cache (add_cls s key cs) f k l d) = cs ++ cls s.
 Proof. reflexivity. Qed.
-Lemma ext_set_new s f k l d cs : lookup s f k = None -> ext s (set_cache (add_cls s cs) f k l d).
+Lemma ext_set_new s key f k l d cs : lookup s f k = None -> ext s (set_cache (add_cls s key cs) f k l d).
 Proof.
   intros L. split.
   - intros f' k' l0 d0 E. destruct (key_dec f f' k k') as [Ek|N]; [inversion Ek; subst; congruence|].
@@ -277,20 +283,20 @@ Proof.
   - intros p Hp. exact Hp.
 Qed.
 Lemma fin_inv h todo s f k l d cs s' l' : Inv h todo s -> fin s f k l d cs = Some (l', s') ->
-  (forall s'', ext s s'' -> s'' = set_cache (add_cls s cs) f k l d -> entry_ok h todo s'' f k l d) ->
+  (forall s'', ext s s'' -> s'' = set_cache (add_cls s (f, k) cs) f k l d -> entry_ok h todo s'' f k l d) ->
   l' = l /\ Inv h todo s' /\ ext s s' /\ cached s' f k l.
 Proof.
   intros I F EO. unfold fin in F. destruct (lookup s f k) eqn:L; [discriminate|]. inversion F; subst l' s'. clear F.
-  set (s' := set_cache (add_cls s cs) f k l d).
+  set (s' := set_cache (add_cls s (f, k) cs) f k l d).
   assert (ext s s') as X by now apply ext_set_new.
   split; [reflexivity|]. split; [|split; [exact X|exists d; apply lookup_set_same]].
   apply (Inv_update h todo s s' f k I X).
   - intros f' k' l0 d0 N E. unfold s' in E. rewrite lookup_set_other in E by exact N. exact E.
   - intros l0 d0 E. unfold s' in E. rewrite lookup_set_same in E. inversion E; subst. now apply EO.
 Qed.
-Lemma ok_cls_add T v s cs f k l d : ok_cls T v (set_cache (add_cls s cs) f k l d) -> forall b, In b cs -> forallb (ev T v) b = false.
+Lemma ok_cls_add T v s key cs f k l d : ok_cls T v (set_cache (add_cls s key cs) f k l d) -> forall b, In b cs -> forallb (ev T v) b = false.
 Proof. intros O b Hb. apply O. rewrite cls_set_add. apply in_or_app. now left. Qed.
-Lemma fresh_ext s kd : ext s (snd (fresh s kd)).
+Lemma fresh_ext s kd key : ext s (snd (fresh s kd key)).
 Proof. split; cbn; eauto. Qed.
 Lemma add_pending_ext s k f : ext s (add_pending s k f).
 Proof. split; cbn; eauto. Qed.
@@ -339,14 +345,14 @@ Proof.
     + apply Nat.leb_le in R. destruct (translate fu h x (k + n) s) as [[lx s1]|] eqn:Tx; [|discriminate]. inversion Tr; subst l s'. clear Tr.
       destruct (IH x (k + n) s lx s1 I R Tx) as [I1 [X1 Cx]].
       set (cs := inst (lmap (true, VX e) lfalse lx lfalse) make_equal_cl_gen).
-      set (s' := set_cache (add_cls s1 cs) (Nx n w x) k (true, VX e) true).
+      set (s' := set_cache (add_free (add_cls s1 (Nx n w x, k) cs) e) (Nx n w x) k (true, VX e) true).
       destruct (ext_cache _ _ X1 _ _ _ _ L) as [d1 [L1 _]].
       assert (ext s1 s') as X'.
       { split.
         - intros f' k' l1 d0 E. destruct (key_dec (Nx n w x) f' k k') as [Ek|N].
           + inversion Ek; subst. rewrite L1 in E. inversion E; subst. exists true. split; [apply lookup_set_same|auto].
           + exists d0. split; [|auto]. unfold s'. now rewrite lookup_set_other by exact N.
-        - intros b Hb. unfold s'. rewrite cls_set_add. apply in_or_app. now right.
+        - intros b Hb. change (In b (cs ++ cls s1)). apply in_or_app. now right.
         - auto. }
       split; [|split; [eapply ext_trans; eauto|exists true; apply lookup_set_same]].
       apply (Inv_update h todo s1 s' (Nx n w x) k I1 X').
@@ -354,7 +360,7 @@ Proof.
       * intros l1 d0 E. unfold s' in E. rewrite lookup_set_same in E. inversion E; subst. split; [exact Hk|]. left.
         split; [reflexivity|]. split; [cbn [outside]; apply negb_false_iff; now apply Nat.leb_le|].
         exists [lx]. split; [constructor; [now apply (ext_cached s1 s')|constructor]|].
-        intros T v O V. cbn [sem map]. apply eq_group_spec. intros c Hc. now apply (ok_cls_add T v s1 cs (Nx n w x) k (true, VX e) true O).
+        intros T v O V. cbn [sem map]. apply eq_group_spec. intros c Hc. apply (ok_cls_add T v s1 (Nx n w x, k) cs (Nx n w x) k (true, VX e) true); [exact O|exact Hc].
     + inversion Tr; subst l s'. clear Tr. split; [|split; [apply add_pending_ext|exists false; exact L]].
       apply (Inv_update h todo s (add_pending s k (Nx n w x)) (Nx n w x) k I (add_pending_ext _ _ _)).
       * intros f' k' l1 d0 _ E. exact E.
@@ -364,7 +370,7 @@ Proof.
     destruct (outside h f k) eqn:O.
     + (* a next formula beyond the horizon: external placeholder, kept pending *)
       destruct (outside_is_next h f k O) as [n [w [x [-> R]]]]. cbn [fresh] in Tr.
-      set (s1 := mkst (S (nxt s)) ((nxt s, KExt (Some w)) :: kinds s) (cls s) (cache s) (pending s)) in *.
+      set (s1 := mkst (S (nxt s)) ((nxt s, KExt (Some w)) :: kinds s) (cls s) (cache s) (pending s) (ENew (nxt s) (KExt (Some w)) (Nx n w x, k) :: log s)) in *.
       set (s2 := add_pending s1 k (Nx n w x)) in *.
       assert (ext s s2) as X2 by (split; cbn; eauto).
       assert (Inv h todo s2) as I2 by (apply (Inv_ext_same h todo s s2 I X2); reflexivity).
@@ -382,14 +388,14 @@ Proof.
            intros T v _ V. exact (combine_sem T v f k ls (CAlias l0) V Cm).
         -- split; [exact I'|]. split; [eapply ext_trans; eauto|exact C'].
       * cbn [fresh] in Tr.
-        set (s2 := mkst (S (nxt s1)) ((nxt s1, KChoice) :: kinds s1) (cls s1) (cache s1) (pending s1)) in *.
+        set (s2 := mkst (S (nxt s1)) ((nxt s1, KChoice) :: kinds s1) (cls s1) (cache s1) (pending s1) (ENew (nxt s1) KChoice (f, k) :: log s1)) in *.
         assert (ext s1 s2) as X2 by (split; cbn; eauto).
         assert (Inv h todo s2) as I2 by (apply (Inv_ext_same h todo s1 s2 I1 X2); reflexivity).
         destruct (fin_inv h todo s2 f k _ _ _ _ _ I2 Tr) as [-> [I' [X' C']]].
         -- intros s'' X'' Es. split; [exact Hk|]. left. repeat split; auto. exists ls.
            split; [apply (ext_all_cached s2 s'' _ _ X''), (ext_all_cached s1 s2 _ _ X2), C1|].
            intros T v Oc V. apply (combine_sem T v f k ls (CDefine cs) V Cm). intros b Hb. subst s''.
-           now apply (ok_cls_add T v s2 (cs (true, VX (nxt s1))) f k (true, VX (nxt s1)) true Oc).
+           now apply (ok_cls_add T v s2 (f, k) (cs (true, VX (nxt s1))) f k (true, VX (nxt s1)) true Oc).
         -- split; [exact I'|]. split; [|exact C']. eapply ext_trans; [exact X1|]. eapply ext_trans; eauto.
 Qed.
 
